@@ -1507,3 +1507,6 @@ EXPLANATION += (
 ASSUMPTIONS = ["the tables in effects.rs are the only source of built-in effect classes", "user-function effects enter only through summaries (direct_callees)"]
 TRUSTED = ["rustc nightly MIR/HIR", "nsx exporter", "nsverif table extraction (constant propagation over acyclic table functions)"]
 NONTRIVIAL = "one obligation per push site clause, per built-in variant, per join cell and per equation-order clause; distinct = distinct clause"
+EXPLANATION += (
+    " Round 6: R2b is a chain of obligations since the D35 repair (gate in front of the recorded types, predicate checked kind by kind against infer_expr_type's arms; a variable's type or a user call's result is never trusted - or, in the collector form, looked up in a complete table). R4f: `if !v.contains(x) { v.push(x) }` tests and extends the same vector with the same item. R4g: a pass with one loop per read/write set does not walk one set twice and its sibling never. R5b: the kills of a lexical scope are attached to the block in which lowering the nested block *ended*. R5c: the gotos into the join block after an `if` are placed on the branches' end blocks. R4c's initial-set comparison was repaired (it compared a prefix both sides share)."
+)
